@@ -332,6 +332,106 @@ pub fn run(case: &C10Case, thorough: bool) -> CaseRes {
                 }
             }
         }
+        // a long-lived replica: part of the items arrive and are refreshed (packs get indexed, some blocks stay
+        // held back), THEN items the applied blocks do not depend on are damaged, then the rest arrives and is
+        // refreshed: whatever that refresh newly applies must be intact and complete at that moment
+        {
+            let a = gen::sel(case.split, order.len() + 1);
+            let b = a + gen::sel(case.sweep_item, order.len() - a + 1);
+            let store = HStore::new();
+            for k in order.iter().take(a) {
+                store.put_raw(k, &intact[k]);
+            }
+            if let Ok(mut live) = open(store.ad())? {
+                // second chunk in a permuted order so that blocks may precede their parents / packs
+                let mut chunk: Vec<String> = order[a..b].to_vec();
+                crate::store::permute(&mut chunk, case.split as u64 * 7919 + 13);
+                for k in &chunk {
+                    store.put_raw(k, &intact[k]);
+                }
+                if guard("refresh", || live.refresh())?.is_ok() {
+                    let applied1 = applied_hook(&live);
+                    // items the applied blocks depend on stay intact
+                    let snap1 = store.snap();
+                    let clo1 = model::closure(&snap1);
+                    let mut protected: BTreeSet<String> = BTreeSet::new();
+                    let mut needed_digests: BTreeSet<String> = BTreeSet::new();
+                    for n in &applied1 {
+                        protected.insert(format!("{}.delta", n));
+                        if let Some(bl) = clo1.applied.get(n) {
+                            for (_, r, p) in &bl.changes {
+                                needed_digests.insert(model::rev_digest(r).to_string());
+                                if let Some(p) = p {
+                                    needed_digests.insert(model::rev_digest(p).to_string());
+                                }
+                            }
+                            for pk in &bl.packs {
+                                protected.insert(format!("{}.pack", pk));
+                            }
+                        }
+                    }
+                    for (k, v) in &snap1 {
+                        if k.ends_with(".pack") && model::scan_pack(v).iter().any(|(d, _, _)| needed_digests.contains(d)) {
+                            protected.insert(k.clone());
+                        }
+                    }
+                    // only packs are damaged here: a block file that was already read (and is merely held back)
+                    // has been interpreted while it was intact, which is all the property asks for
+                    let victims: Vec<String> = store.order().into_iter().filter(|k| k.ends_with(".pack") && !protected.contains(k)).collect();
+                    let mut damaged = false;
+                    if !victims.is_empty() {
+                        let mut s2 = store.snap();
+                        for f in &case.faults {
+                            if matches!(f, Fault::Junk { .. }) {
+                                continue;
+                            }
+                            if let Some(desc) = apply_fault(f, &mut s2, &victims) {
+                                log.push(format!("fault after the first refresh: {}", desc));
+                                damaged = true;
+                            }
+                        }
+                        for k in &victims {
+                            match s2.get(k) {
+                                Some(v) => {
+                                    if store.get(k).as_ref() != Some(v) {
+                                        store.set_raw(k, v.clone());
+                                    }
+                                }
+                                None => store.remove_raw(k),
+                            }
+                        }
+                    }
+                    for k in order.iter().skip(b) {
+                        store.put_raw(k, &intact[k]);
+                    }
+                    let r = match guard("refresh", || live.refresh()) {
+                        Ok(r) => r,
+                        Err(Fail::Panic { op, msg }) => return viol("C10", format!("{} aborted on storage damaged after a first refresh: {}", op, msg)),
+                        Err(f) => return Err(f),
+                    };
+                    if r.is_ok() {
+                        let now = store.snap();
+                        let clo = model::closure(&now);
+                        let applied2 = applied_hook(&live);
+                        // a newly applied block must find every pack it names intact at that moment
+                        let mut bad: Vec<String> = vec![];
+                        for n in applied2.iter().filter(|n| !applied1.contains(*n)) {
+                            if let Some(bl) = intact.get(&format!("{}.delta", n)).and_then(|b| model::parse_block(n, b)) {
+                                if bl.packs.iter().any(|pk| !clo.packs.contains(pk)) {
+                                    bad.push(n.clone());
+                                }
+                            }
+                        }
+                        if !bad.is_empty() {
+                            return viol("C10", format!("refresh applied blocks {:?} although a pack they name was damaged or removed after it had been indexed (intact packs now: {:?})", bad, clo.packs));
+                        }
+                        if damaged {
+                            *cnt.entry("refreshes_after_late_damage").or_insert(0) += 1;
+                        }
+                    }
+                }
+            }
+        }
         // sweep: every position of one item (thorough) / 24 positions (quick), every truncation length
         if !keys.is_empty() {
             let k = &keys[gen::sel(case.sweep_item, keys.len())];
